@@ -198,6 +198,10 @@ let handle (cmd : ostring) (args : ostring list) : ostring =
   | "makeinfo", [l; n] -> show_result hex_of_bytes_strict (x_make_info (bytes_of_hex l) (z_of_hex n))
   | "run_tls", [opts; keylog; items] ->
       show_result show_pkts (x_run_tls pipe_crypto (options_of opts) (secrets_of keylog) (items_of items))
+  | "run", [opts; keylog; items] ->
+      show_result show_pkts (x_run pipe_crypto (options_of opts) (secrets_of keylog) (items_of items))
+  | "run_file", [opts; keylog; items] ->
+      show_result (fun l -> hex_of_bytes_strict (x_write_file l)) (x_run pipe_crypto (options_of opts) (secrets_of keylog) (items_of items))
   | "run_tls_file", [opts; keylog; items] ->
       show_result (fun l -> hex_of_bytes_strict (x_write_file l)) (x_run_tls pipe_crypto (options_of opts) (secrets_of keylog) (items_of items))
   | "ping", _ -> "pong"
